@@ -25,10 +25,10 @@ var peopleTypes = map[string]ast.NodeType{
 	"ia": ast.NodeTypeInt64, "ib": ast.NodeTypeInt64, "fa": ast.NodeTypeFloat64,
 	"ba": ast.NodeTypeBool, "ta": ast.NodeTypeDatetime,
 	"roles": ast.NodeTypeString, "nums": ast.NodeTypeString,
-	"boss": ast.NodeTypeString, "home": ast.NodeTypeString, "places": ast.NodeTypeString,
+	"boss": ast.NodeTypeString, "home": ast.NodeTypeString, "places": ast.NodeTypeString, "peers": ast.NodeTypeString,
 }
-var peopleSets = map[string]bool{"roles": true, "nums": true, "places": true}
-var peopleLinks = map[string]string{"boss": "people", "home": "places", "places": "places"}
+var peopleSets = map[string]bool{"roles": true, "nums": true, "places": true, "peers": true}
+var peopleLinks = map[string]string{"boss": "people", "home": "places", "places": "places", "peers": "people"}
 
 var placesTypes = map[string]ast.NodeType{
 	"id": ast.NodeTypeString, "name": ast.NodeTypeString, "n": ast.NodeTypeInt64,
@@ -184,6 +184,8 @@ func ElemsOf(d *Dataset, kind, rowID string, parts []string) []Val {
 				return p.Nums, true
 			case "places":
 				return p.Places, true
+			case "peers":
+				return p.Peers, true
 			}
 			return StrSet{}, false
 		}
